@@ -97,6 +97,56 @@ class CFG:
         self._dom = dom
         return dom
 
+    def postdominators(self):
+        """pdom[b] = set of blocks that every path from b to a return passes (b included); blocks that reach no
+        return (diverging) are their own only post-dominator."""
+        if getattr(self, '_pdom', None) is not None:
+            return self._pdom
+        reach = self.reachable([0])
+        exits = [r for r in self.returns if r in reach]
+        live = set()
+        work = list(exits)
+        while work:
+            b = work.pop()
+            if b in live:
+                continue
+            live.add(b)
+            work.extend(p for p in self.pred[b] if p in reach)
+        pdom = {b: set(live) for b in live}
+        for e in exits:
+            pdom[e] = {e}
+        changed = True
+        while changed:
+            changed = False
+            for b in live:
+                if b in exits:
+                    continue
+                ss = [x for x in self.succ[b] if x in live]
+                if not ss:
+                    continue
+                new = set.intersection(*[pdom[x] for x in ss]) | {b}
+                if new != pdom[b]:
+                    pdom[b] = new
+                    changed = True
+        for b in reach:
+            pdom.setdefault(b, {b})
+        self._pdom = pdom
+        return pdom
+
+    def controllers(self, c):
+        """Blocks whose branch decides whether c executes (control dependence): c post-dominates one successor of b
+        but does not post-dominate b itself."""
+        pd = self.postdominators()
+        out = []
+        for b in range(self.n):
+            if len(self.succ[b]) < 2 or b == c:
+                continue
+            if c in pd.get(b, ()):
+                continue
+            if any(c in pd.get(x, ()) or x == c for x in self.succ[b]):
+                out.append(b)
+        return out
+
     def _rpo(self):
         seen = set()
         post = []
